@@ -38,6 +38,17 @@ pub proof fn axiom_hasher_agrees_on_clone<T: Clone, H: Fn(&T) -> u64>(h: H, a: T
     ensures forall|b: T| #[trigger] call_ensures(T::clone, (&a,), b) ==> h.ensures((&b,), hash)
 { }
 
+/// Extraction rule R22 materialises the phantom borrow of `map::Iter<'a, K, V>` (`marker: PhantomData<(&'a K, &'a V)>`) as a
+/// ghost reference `marker: Ghost<&'a RawTable<(K, V)>>`, set where the iterator is built (`HashMap::iter`) to the table the
+/// raw cursor was taken from. While such a shared borrow is live the table cannot change (Verus borrow-checks ghost
+/// references like real ones), so a bucket of that table dereferences to the element the ghost reference sees. TRUSTED: that
+/// the real iterator's buckets point into that table -- which is what its `PhantomData<&'a ..>` declares to rustc.
+/// Conditional on purpose: nothing is promised about a bucket that is not an occupied bucket of `t`.
+#[verifier::external_body]
+pub fn bucket_ref_g<'a, T>(b: &Bucket<T>, t: Ghost<&'a RawTable<T>>) -> (r: &'a T)
+    ensures t@.valid_bucket(*b) ==> *r == t@.elem(*b),
+{ unsafe { b.as_ref() } }
+
 /// `Iterator::size_hint` of a caller-supplied iterator (extraction rule R17 routes the call through this identity
 /// wrapper because vstd's Iterator specification has no `size_hint`): the hint is advisory, so NOTHING is assumed
 /// about the result -- every value, including (usize::MAX, None) and a wrong one, is possible.
